@@ -8,7 +8,11 @@
 // whose attributes derive from the imports. The set is parsed (a) every package alone, (b) in every
 // order on one state, (c) concurrently from 2k goroutines under -race. Each package's result must
 // equal its "alone" result. Single attacks are additionally probed one by one against the observer,
-// which gives a minimal witness and a key naming writer / path / target class.
+// which gives a minimal witness and a key naming writer / path / target class. Paths include the
+// copies returned by sorted() / reversed() / `+ []` / `[:]` (writing into one's own copy must not
+// reach the import, also for lists of one entry); half of the build_defs set CONFIG defaults of their
+// own and half of the attackers change their own configuration after the subinclude, which must
+// stay theirs. A third stream runs single-attack probes only (no orders, no concurrency).
 package c17
 
 import (
@@ -41,9 +45,14 @@ type target struct {
 }
 
 type defs struct {
-	Text    string
-	Targets []target
-	Config  bool
+	Text     string
+	Targets  []target
+	Config   bool
+	CfgWrite bool // the build_defs itself sets configuration, i.e. it exports a CONFIG of its own
+	// CfgTargets are the containers the build_defs put into CONFIG. They are attacked by the
+	// single-attack probes only, so that a leak through them has one witness key (what they add
+	// under concurrency is a data race report that cannot be told from other races).
+	CfgTargets []target
 }
 
 func strList(rng *rand.Rand, n int) []any {
@@ -61,14 +70,15 @@ func strList(rng *rand.Rand, n int) []any {
 }
 
 func genDefs(rng *rand.Rand, config bool) defs {
-	l := func() string { return asplib.Lit(strList(rng, 2+rng.Intn(3))) }
+	// 1-4 entries: a list of one entry cannot be reordered, but it can still be written into
+	l := func() string { return asplib.Lit(strList(rng, 1+rng.Intn(4))) }
 	nested := func() string { return "[" + l() + ", " + l() + "]" }
 	var sb strings.Builder
 	fmt.Fprintf(&sb, "_M = %s\n", nested())
 	fmt.Fprintf(&sb, "N = %s\n", nested())
 	fmt.Fprintf(&sb, "L = %s\n", l())
 	// a filtered comprehension: backing array larger than the list
-	fl := strList(rng, 4+rng.Intn(2))
+	fl := strList(rng, 2+rng.Intn(4))
 	fmt.Fprintf(&sb, "F = [x for x in %s if x != %s]\n", asplib.Lit(fl), asplib.Lit(fl[len(fl)-1]))
 	fmt.Fprintf(&sb, "D = {\"k\": %s, \"m\": {\"x\": %s}}\n", l(), l())
 	fmt.Fprintf(&sb, "LD = [{\"a\": \"1\"}, {\"b\": %s}]\n", l())
@@ -80,7 +90,17 @@ func genDefs(rng *rand.Rand, config bool) defs {
 	sb.WriteString("def mutate(l):\n    l[0] = \"M\"\n    return l\n")
 	sb.WriteString("def sort_it(l):\n    return sorted(l)\n")
 	sb.WriteString("def put(d):\n    d[\"put\"] = \"P\"\n    return d\n")
-	d := defs{Config: config}
+	d := defs{Config: config, CfgWrite: rng.Intn(2) == 0}
+	if d.CfgWrite {
+		// What the build_defs of a plugin does: defaults for its own settings. The file then exports
+		// a CONFIG with entries of its own, which are merged into the CONFIG of every package that
+		// subincludes it.
+		sb.WriteString("CONFIG.setdefault(\"DEFS_MODE\", \"safe\")\n")
+		if rng.Intn(2) == 0 {
+			sb.WriteString("CONFIG[\"DEFS_SET\"] = \"s\"\n")
+		}
+		fmt.Fprintf(&sb, "CONFIG.setdefault(\"DEFS_LIST\", %s)\n", l())
+	}
 	d.Targets = []target{
 		{"L", "exported-list", false},
 		{"F", "exported-list", false},
@@ -130,6 +150,10 @@ func genDefs(rng *rand.Rand, config bool) defs {
 			{"lit()", "func-literal", false},
 		}
 	}
+	if d.CfgWrite {
+		// containers the build_defs put into CONFIG (attacked in the single-attack stream only, see probeSet)
+		d.CfgTargets = []target{{"CONFIG.DEFS_LIST", "defs-config-list", false}, {"CONFIG[\"DEFS_LIST\"]", "defs-config-list", false}, {"CONFIG.get(\"DEFS_LIST\")", "defs-config-list", false}}
+	}
 	d.Text = sb.String()
 	return d
 }
@@ -140,6 +164,7 @@ func exportStmts(config bool) string {
 		"\"N\": N", "\"L\": L", "\"F\": F", "\"D\": D", "\"LD\": LD", "\"g\": get_n()", "\"gd\": get_d()",
 		"\"lit\": lit()", "\"nl\": nested_lit()", "\"dflt\": dflt()",
 		"\"cl\": CONFIG.PROTO_LANGUAGES", "\"cf\": CONFIG.PROTOC_FLAGS", "\"ck\": CONFIG.get(\"ZZ_NEW\")", "\"csd\": CONFIG.get(\"NEWKEY\")",
+		"\"dm\": CONFIG.get(\"DEFS_MODE\")", "\"ds\": CONFIG.get(\"DEFS_SET\")", "\"dl\": CONFIG.get(\"DEFS_LIST\")", "\"dv\": CONFIG.DEFAULT_VISIBILITY",
 		"\"out\": OUT",
 	}
 	if config {
@@ -153,7 +178,7 @@ func exportStmts(config bool) string {
 
 type attack struct {
 	Writer string // index-assign | sorted | reversed | dict-assign | setdefault | config-assign | config-setdefault | package | none
-	Path   string // alias | add-empty | slice | in-function
+	Path   string // alias | add-empty | slice | sorted-copy | reversed-copy | in-function
 	Target target
 	Code   string
 }
@@ -201,10 +226,10 @@ func mkAttack(rng *rand.Rand, t target, n, w, p int) attack {
 		return a
 	}
 	if p < 0 {
-		p = rng.Intn(5)
+		p = rng.Intn(7)
 	}
 	src := v("a")
-	switch p % 5 {
+	switch p % 7 {
 	case 0, 1:
 		a.Path = "alias"
 	case 2:
@@ -218,6 +243,15 @@ func mkAttack(rng *rand.Rand, t target, n, w, p int) attack {
 	case 4:
 		a.Path = "slice"
 		fmt.Fprintf(&sb, "%s = %s[:]\n", v("b"), v("a"))
+		src = v("b")
+	case 5:
+		// the builtins that promise a reordered *copy*: what they return must be the caller's own
+		a.Path = "sorted-copy"
+		fmt.Fprintf(&sb, "%s = sorted(%s)\n", v("b"), v("a"))
+		src = v("b")
+	case 6:
+		a.Path = "reversed-copy"
+		fmt.Fprintf(&sb, "%s = reversed(%s)\n", v("b"), v("a"))
 		src = v("b")
 	}
 	if w < 0 {
@@ -261,12 +295,19 @@ func mkAttack(rng *rand.Rand, t target, n, w, p int) attack {
 	return a
 }
 
+// configAttacks: a package changing its own configuration after the subinclude (attacks run between
+// the subinclude and the first target). That is legitimate; it just must stay the package's own.
 func configAttacks(n int) []attack {
 	t := target{"CONFIG", "config", true}
 	return []attack{
 		{Writer: "config-assign", Path: "alias", Target: t, Code: "CONFIG[\"ZZ_NEW\"] = \"v\"\n"},
 		{Writer: "config-setdefault", Path: "alias", Target: t, Code: "CONFIG.setdefault(\"NEWKEY\", \"w\")\n"},
 		{Writer: "config-assign", Path: "alias", Target: t, Code: "CONFIG[\"PROTO_LANGUAGES\"] = [\"hijack\"]\n"},
+		// a key the build_defs may have set itself
+		{Writer: "config-assign", Path: "alias", Target: t, Code: "CONFIG[\"DEFS_MODE\"] = \"fast\"\n"},
+		{Writer: "config-setdefault", Path: "alias", Target: t, Code: "CONFIG.setdefault(\"DEFS_SET\", \"mine\")\n"},
+		{Writer: "package", Path: "alias", Target: t, Code: "package(default_visibility = [\"PUBLIC\"])\n"},
+		{Writer: "package", Path: "alias", Target: t, Code: "package(proto_languages = [\"pkg\"])\n"},
 	}
 }
 
@@ -434,9 +475,10 @@ func genSet(rng *rand.Rand, config bool) (d defs, strs []string, pkgs []pkgSpec,
 			n++
 			p.Attacks = append(p.Attacks, genAttack(rng, d, n))
 		}
-		if config && rng.Intn(2) == 0 {
+		if rng.Intn(2) == 0 {
 			ca := configAttacks(n)
-			p.Attacks = append(p.Attacks, ca[rng.Intn(len(ca))])
+			at := rng.Intn(len(p.Attacks) + 1) // anywhere among the other attacks
+			p.Attacks = append(p.Attacks[:at:at], append([]attack{ca[rng.Intn(len(ca))]}, p.Attacks[at:]...)...)
 		}
 		if rng.Intn(6) == 0 {
 			p.Pre = "package(default_visibility = [\"PUBLIC\"])\n"
@@ -488,6 +530,106 @@ func runConcurrentPhase(r *lib.Run, idx int, rng *rand.Rand, config bool, reps i
 	return out
 }
 
+// A prober runs single attacks, one attacker package each, against a pure observer of the same
+// build_defs: the observer parsed after the attacker must evaluate to what it evaluates to alone.
+type prober struct {
+	r           *lib.Run
+	sr          *setRunner
+	observer    pkgSpec
+	obsAlone    string
+	caseIdx     int
+	unprotected map[string]bool // target expressions writable through a plain alias
+}
+
+func newProber(r *lib.Run, sr *setRunner, observer pkgSpec, caseIdx int) *prober {
+	pr := &prober{r: r, sr: sr, observer: observer, caseIdx: caseIdx, unprotected: map[string]bool{}}
+	pr.obsAlone = sr.sequential([]pkgSpec{observer})[0]
+	if !strings.Contains(pr.obsAlone, "err=\n") {
+		r.Violation("harness/observer-fails", "the pure observer package does not evaluate: "+clip(pr.obsAlone), map[string]any{"build_defs": sr.d.Text}, caseIdx)
+		return nil
+	}
+	return pr
+}
+
+// probe reports whether the attack changes what the observer sees.
+func (pr *prober) probe(a attack) bool {
+	r, sr, d, config := pr.r, pr.sr, pr.sr.d, pr.sr.d.Config
+	derived := a.Path != "alias" && a.Path != "in-function"
+	if derived && !a.Target.Dict && a.Writer != "append" {
+		// first find out whether the target is writable through a plain alias at all
+		if _, done := pr.unprotected[a.Target.Expr]; !done {
+			plain := mkAttack(nil, a.Target, 900, 0, 0)
+			p2 := pkgSpec{Name: "atk", Attacks: []attack{plain}}
+			res := sr.sequential([]pkgSpec{p2, pr.observer})
+			pr.unprotected[a.Target.Expr] = res[1] != pr.obsAlone
+		}
+	}
+	p := pkgSpec{Name: "atk", Attacks: []attack{a}}
+	res := sr.sequential([]pkgSpec{p, pr.observer})
+	r.Obs("single_attack_probes", 1)
+	r.ObsDistinct("attack_kinds", a.key())
+	if strings.Contains(res[0], "err=\n") {
+		r.Obs("attacks_accepted_by_interpreter", 1)
+		if d.CfgWrite && a.Target.Class == "config" {
+			r.Obs("own_config_changed_after_subinclude_that_sets_config", 1)
+		}
+		if derived && !a.Target.Dict && (a.Writer == "index-assign") {
+			r.Obs("writes_into_derived_copies_accepted", 1)
+		}
+	} else {
+		r.Obs("attacks_rejected_by_interpreter", 1)
+	}
+	if res[1] == pr.obsAlone {
+		return false
+	}
+	key := a.key()
+	if derived && pr.unprotected[a.Target.Expr] {
+		r.Obs("leaks_implied_by_unprotected_target", 1)
+		return true
+	}
+	noteKey(key)
+	r.Violation(key, fmt.Sprintf("a package that runs `%s` changes what a package parsed afterwards sees (%s)",
+		strings.TrimSpace(strings.ReplaceAll(a.Code, "\n", "; ")), firstDiff(pr.obsAlone, res[1])),
+		map[string]any{
+			"build_defs": d.Text, "attacker_BUILD": p.source("//S:defs", config), "observer_BUILD": pr.observer.source("//S:defs", config),
+			"observer_alone": pr.obsAlone, "observer_after_attacker": res[1],
+		}, pr.caseIdx)
+	return true
+}
+
+// probeSet is the cheap half of checkSet: one generated build_defs, many single attacks (no
+// orders, no concurrency), so that rarely generated combinations of writer / path / target / list
+// length are reached in the quick tier as well.
+func probeSet(r *lib.Run, caseIdx, idx int, rng *rand.Rand, attacks int) {
+	d := genDefs(rng, false)
+	sr := &setRunner{r: r, idx: idx, d: d}
+	observer := pkgSpec{Name: "obs"}
+	var list []attack
+	for n := 1; n <= attacks; n++ {
+		if n == attacks && d.CfgWrite {
+			// one write into what the build_defs put into CONFIG: through a plain alias, or any path
+			list = append(list, mkAttack(rng, d.CfgTargets[rng.Intn(len(d.CfgTargets))], n, []int{0, 1, 5}[rng.Intn(3)], []int{0, -1}[rng.Intn(2)]))
+		} else if rng.Intn(5) == 0 {
+			ca := configAttacks(n)
+			list = append(list, ca[rng.Intn(len(ca))])
+		} else {
+			list = append(list, genAttack(rng, d, n))
+		}
+	}
+	var codes []string
+	for _, a := range list {
+		codes = append(codes, a.Code)
+	}
+	r.Case(d.Text+strings.Join(codes, "\x00"), true)
+	pr := newProber(r, sr, observer, caseIdx)
+	if pr == nil {
+		return
+	}
+	for _, a := range list {
+		pr.probe(a)
+	}
+}
+
 var fatalRe = regexp.MustCompile(`(?m)^(fatal error: .*|panic: .*)$`)
 
 func checkSet(r *lib.Run, stream string, caseIdx, idx int, rng *rand.Rand, config bool, concReps int) {
@@ -513,52 +655,14 @@ func checkSet(r *lib.Run, stream string, caseIdx, idx int, rng *rand.Rand, confi
 		t0 = time.Now()
 	}
 	// --- (0) every attack alone against the observer: minimal witnesses, specific keys ---
-	obsAlone := sr.sequential([]pkgSpec{observer})[0]
-	if !strings.Contains(obsAlone, "err=\n") {
-		r.Violation("harness/observer-fails", "the pure observer package does not evaluate: "+clip(obsAlone), map[string]any{"build_defs": d.Text}, caseIdx)
+	pr := newProber(r, sr, observer, caseIdx)
+	if pr == nil {
 		return
 	}
 	guilty := map[string]bool{}
-	unprotected := map[string]bool{} // target expressions writable through a plain alias
-	probe := func(a attack) bool {
-		p := pkgSpec{Name: "atk", Attacks: []attack{a}}
-		res := sr.sequential([]pkgSpec{p, observer})
-		r.Obs("single_attack_probes", 1)
-		r.ObsDistinct("attack_kinds", a.key())
-		if strings.Contains(res[0], "err=\n") {
-			r.Obs("attacks_accepted_by_interpreter", 1)
-		} else {
-			r.Obs("attacks_rejected_by_interpreter", 1)
-		}
-		if res[1] == obsAlone {
-			return false
-		}
-		key := a.key()
-		if a.Path != "alias" && a.Path != "in-function" && unprotected[a.Target.Expr] {
-			r.Obs("leaks_implied_by_unprotected_target", 1)
-			return true
-		}
-		noteKey(key)
-		r.Violation(key, fmt.Sprintf("a package that runs `%s` changes what a package parsed afterwards sees (%s)",
-			strings.TrimSpace(strings.ReplaceAll(a.Code, "\n", "; ")), firstDiff(obsAlone, res[1])),
-			map[string]any{
-				"build_defs": d.Text, "attacker_BUILD": p.source("//S:defs", config), "observer_BUILD": observer.source("//S:defs", config),
-				"observer_alone": obsAlone, "observer_after_attacker": res[1],
-			}, caseIdx)
-		return true
-	}
 	for _, p := range pkgs {
 		for _, a := range p.Attacks {
-			if a.Path != "alias" && a.Path != "in-function" && !a.Target.Dict && a.Writer != "append" {
-				// first find out whether the target is writable through a plain alias at all
-				if _, done := unprotected[a.Target.Expr]; !done {
-					plain := mkAttack(nil, a.Target, 900, 0, 0)
-					p2 := pkgSpec{Name: "atk", Attacks: []attack{plain}}
-					res := sr.sequential([]pkgSpec{p2, observer})
-					unprotected[a.Target.Expr] = res[1] != obsAlone
-				}
-			}
-			if probe(a) {
+			if pr.probe(a) {
 				guilty[p.Name] = true
 			}
 		}
@@ -728,15 +832,18 @@ func TestC17(t *testing.T) {
 	r := lib.Start("C17")
 	defer lib.End(t, r)
 	asplib.Init(r.Scratch())
-	r.Rule = "package sets: one generated build_defs (nested lists, dict of lists, list of dicts, filtered comprehension, functions returning module-level containers / literals / default arguments; a second stream adds CONFIG-derived lists) + 1-3 attacker BUILD files with 1-4 attacks each (writer: index assignment, sorted, reversed, dict assignment, setdefault, in a subincluded function, appends; path: alias, `+ []`, `[:]`; 33 target expressions) + one observer; each set parsed alone, in every order, and concurrently (2 goroutines per package, several rounds, -race). Distinct by defs+sources; non-trivial = at least one mutating attack"
+	r.Rule = "package sets: one generated build_defs (nested lists, dict of lists, list of dicts, filtered comprehension, functions returning module-level containers / literals / default arguments; lists of 1-4 entries; half of the files also set CONFIG defaults of their own; a second stream adds CONFIG-derived lists) + 1-3 attacker BUILD files with 1-4 attacks each (writer: index assignment, sorted, reversed, dict assignment, setdefault, in a subincluded function, appends; path: alias, `+ []`, `[:]`, the copy returned by sorted(), the copy returned by reversed(); 33-35 target expressions; in half of the attackers a change of the package's own configuration after the subinclude: CONFIG[k] = v, CONFIG.setdefault, package(...)) + one observer; each set parsed alone, in every order, and concurrently (2 goroutines per package, several rounds, -race); a third stream probes 10 single attacks per generated build_defs against the observer only. Distinct by defs+sources; non-trivial = at least one mutating attack"
 	r.Assumes = []string{
 		"every run of a set uses a fresh copy of the build_defs under a new path (new AST, new evaluation) so that runs do not influence each other; CONFIG sets use a fresh BuildState per run",
 		"results are compared as (error message without position, exported JSON, attributes of the defined targets)",
 		"concurrency verdicts never depend on timing: a difference is a violation whenever it is observed, silence is not proof",
 	}
 	conc := r.Pick(6, 20)
-	r.ForEach("sets", asplib.Dev(r.Pick(60, 2500)), 8, func(i int, rng *rand.Rand) {
+	r.ForEach("sets", asplib.Dev(r.Pick(54, 2500)), 8, func(i int, rng *rand.Rand) {
 		checkSet(r, "sets", i, i, rng, false, conc)
+	})
+	r.ForEach("probes", asplib.Dev(r.Pick(24, 1500)), 8, func(i int, rng *rand.Rand) {
+		probeSet(r, i, 2000000+i, rng, 10)
 	})
 	r.ForEach("config-sets", asplib.Dev(r.Pick(8, 300)), 8, func(i int, rng *rand.Rand) {
 		checkSet(r, "config-sets", i, 1000000+i, rng, true, 2)
@@ -750,5 +857,6 @@ func TestC17(t *testing.T) {
 	keyMu.Unlock()
 	sort.Strings(keys)
 	r.Extra("violation_keys_seen", keys)
-	r.RequireObserved("single_attack_probes", "orders_checked", "concurrent_rounds", "packages_parsed_concurrently", "attacks_accepted_by_interpreter", "attacks_rejected_by_interpreter")
+	r.RequireObserved("single_attack_probes", "orders_checked", "concurrent_rounds", "packages_parsed_concurrently", "attacks_accepted_by_interpreter", "attacks_rejected_by_interpreter",
+		"own_config_changed_after_subinclude_that_sets_config", "writes_into_derived_copies_accepted")
 }
